@@ -1,4 +1,6 @@
 import RR.Model.RingDriver
+import RR.Model.WaitDriver
+import RR.Model.ConcDriver
 
 /-! `rrdriver`: one request per line on stdin, one answer per line on stdout.
 A request is `<model> <args>`; the answer is the model's observable output. -/
@@ -9,6 +11,8 @@ def dispatch (line : String) : String :=
   match line.splitOn " " with
   | "ring" :: rest => RingDriver.handle (" ".intercalate rest)
   | "ringnew" :: rest => RingDriver.handleNew (" ".intercalate rest)
+  | "conc" :: rest => ConcDriver.handle (" ".intercalate rest)
+  | "wait" :: rest => WaitDriver.handle (" ".intercalate rest)
   | _ => "bad-model"
 
 partial def loop (h : IO.FS.Stream) (out : IO.FS.Stream) : IO Unit := do
